@@ -33,7 +33,13 @@ NOT covered: relocatable records ($82..$85: outside the documented grammar, such
     (pbind refuses it with a format error: modelled as ReaderRejects, not judged).
     Granularity implied by a short header: the manual gives no table; the specification uses toolutils.c Granularity().
 
-Mutations of the real code tried: see MUTATIONS at the bottom.
+MUTATIONS tried (scratch copies, VERIF_REPO; list with sed expressions in selftest/C05-C07-mutations.txt):
+  detected (VIOLATION, exit 1): pbind filter on the record type instead of the CPU id; short header allowed for CPU ids
+    $80..$8f (found only after CPU id $81 was added to the case spaces); implied-granularity table entry changed; entry
+    records dropped by pbind; skipped records mis-seeked; tail of a record longer than the 8192-byte copy buffer dropped;
+    plist end address without granularity; plist sums booked on CODE; wrong segment name; wrong family name in
+    headids.c; plist length column divided by the granularity.
+  equivalent (exit 0, rightly): pbind copying in 16-byte pieces.
 """
 import json
 import os
@@ -266,7 +272,7 @@ def main(tier):
         rep.model("%s(Dev={%s}: defect found by TLC)" % (mod, d), mc)
 
     # (G)+(V) pbind -----------------------------------------------------------------------------------
-    cases, nsim = generate(rep, "PBind_MC", ["PBind_Cover.cfg", "PBind_Cover1.cfg"], "PBind_Sim.cfg",
+    cases, nsim = generate(rep, "PBind_MC", ["PBind_Cover.cfg", "PBind_Cover1.cfg", "PBind_CoverBig.cfg"], "PBind_Sim.cfg",
                            150 if tier == "quick" else 2500, 12)
     jobs = [pbind_job(x["c"], rng("c07/b/%d" % i)) for i, x in enumerate(cases)]
     with Phase("replay %d cases into pbind" % len(jobs)):
@@ -323,7 +329,7 @@ def main(tier):
     judge(rep, tier, "PBind_Trace", pending, "pbind", _d_pbind, bld, pbind_obs)
 
     # (G)+(V) plist -----------------------------------------------------------------------------------
-    cases, nsim = generate(rep, "PList_MC", ["PList_Cover.cfg", "PList_Fam.cfg"], "PList_Sim.cfg",
+    cases, nsim = generate(rep, "PList_MC", ["PList_Cover.cfg", "PList_Fam.cfg", "PList_CoverBig.cfg"], "PList_Sim.cfg",
                            150 if tier == "quick" else 2500, 9)
     jobs = [plist_job(x["c"], rng("c07/l/%d" % i)) for i, x in enumerate(cases)]
     with Phase("replay %d cases into plist" % len(jobs)):
